@@ -181,7 +181,7 @@ def plan(prop, tier, seed):
     elif prop == "C02":
         data(n(40, 400)); fam(n(40, 500), scen.window_session, "window"); fam(n(25, 400), scen.refresh_session, "refresh"); fam(n(4, 40), scen.queue_full_session, "queue-full")
     elif prop == "C03":
-        data(n(50, 500), p_rel=0.5); data(n(5, 60), big_groups=True); fam(n(30, 400), scen.wrap_partial_session, "wrap-partial"); fam(n(4, 40), scen.queue_full_session, "queue-full"); fam(n(10, 150), scen.bad_group_session, "bad-groups")
+        data(n(50, 500), p_rel=0.5); data(n(20, 250), with_close=True, updates=True); data(n(5, 60), big_groups=True); fam(n(30, 400), scen.wrap_partial_session, "wrap-partial"); fam(n(4, 40), scen.queue_full_session, "queue-full"); fam(n(10, 150), scen.bad_group_session, "bad-groups")
     elif prop == "C04":
         data(n(25, 300))
         for _ in range(n(25, 400)):
